@@ -11,7 +11,7 @@ use proptest::prelude::*;
 use serde::{Deserialize, Serialize};
 use simple_sds::bit_vector::rank_support::RankSupport;
 use simple_sds::bit_vector::select_support::SelectSupport;
-use simple_sds::bit_vector::{BitVector, Complement, Identity};
+use simple_sds::bit_vector::{BitVector, Complement, Identity, Transformation};
 use simple_sds::bits;
 use simple_sds::int_vector::{IntVector, IntVectorMapper};
 use simple_sds::ops::{Access, BitVec, Pack, Pop, PredSucc, Push, Rank, Resize, Select, SelectZero, Vector, VectorIndex};
@@ -163,6 +163,8 @@ pub enum Step {
     Reload(u8),
     /// (mutable mapping, accesses, number of elements cut from the end of the file)
     Map(bool, Vec<(u8, Arg, Arg)>, u8),
+    /// replace the plain bitvector by a conversion of the sparse vector (possibly a multiset) or the run-length vector; (source, copy_bit_vec instead of From)
+    PlainFrom(bool, bool),
 }
 
 #[derive(Clone, Debug, Serialize, Deserialize, Hash)]
@@ -187,6 +189,8 @@ struct Heap {
     extreme_calls: u64,
     panics: u64,
     calls: u64,
+    /// a multiset sparse vector (count_ones > distinct positions) was converted into a plain bitvector
+    multiset_to_plain: u64,
 }
 
 macro_rules! call {
@@ -532,10 +536,60 @@ fn run_step(h: &mut Heap, step: &Step, scratch_key: u64) -> Result<(), Fail> {
                 }
             }
         }
+        Step::PlainFrom(from_rl, copy) => {
+            let converted = if *from_rl {
+                h.rl.as_ref().filter(|v| v.len() <= 2_000_000).map(|v| catch(|| if *copy { BitVector::copy_bit_vec(v) } else { BitVector::from(v.clone()) }))
+            } else {
+                h.sparse.as_ref().filter(|v| v.len() <= 2_000_000).map(|v| catch(|| if *copy { BitVector::copy_bit_vec(v) } else { BitVector::from(v.clone()) }))
+            };
+            h.calls += 1;
+            if !*from_rl && converted.is_some() {
+                if let Some(sv) = h.sparse.as_ref() {
+                    if sv.is_multiset() {
+                        h.multiset_to_plain += 1;
+                    }
+                }
+            }
+            match converted {
+                Some(Ok(mut bv)) => {
+                    // the converted vector is used at once: all set bits from both ends, then with freshly built supports
+                    call!(h, bv.one_iter().count());
+                    call!(h, bv.one_iter().rev().take(70).count());
+                    call!(h, bv.zero_iter().take(70).count());
+                    call!(h, bv.enable_select());
+                    call!(h, bv.enable_select_zero());
+                    call!(h, (bv.select(bv.count_ones().saturating_sub(1)), bv.select_zero(bv.len().saturating_sub(bv.count_ones()).saturating_sub(1))));
+                    h.plain = Some(bv)
+                }
+                Some(Err(_)) => h.panics += 1,
+                None => {}
+            }
+        }
         Step::StaleSupport(a) => {
             if let Some(bv) = h.plain.take() {
                 let v = a.res(bv.len(), bv.count_ones());
                 h.extreme_calls += 1;
+                // the public building blocks of the supports, with any argument
+                call!(h, <Identity as Transformation>::word(&bv, v));
+                call!(h, <Complement as Transformation>::word(&bv, v));
+                call!(h, <Identity as Transformation>::bit(&bv, v));
+                call!(h, <Complement as Transformation>::bit(&bv, v));
+                call!(h, <Identity as Transformation>::count_ones(&bv));
+                call!(h, <Complement as Transformation>::count_ones(&bv));
+                if bv.len() <= 100_000 {
+                    // supports built for this very vector, asked for any rank / index
+                    let r = catch(|| (RankSupport::new(&bv), SelectSupport::<Identity>::new(&bv), SelectSupport::<Complement>::new(&bv)));
+                    h.calls += 1;
+                    match r {
+                        Ok((rs, s1, s0)) => {
+                            call!(h, rs.rank(&bv, v));
+                            call!(h, s1.select(&bv, v));
+                            call!(h, s0.select(&bv, v));
+                            call!(h, (s1.superblocks(), s1.long_superblocks(), s1.short_superblocks(), s0.superblocks()));
+                        }
+                        Err(_) => h.panics += 1,
+                    }
+                }
                 if let Some(rs) = h.stale_rank.take() {
                     call!(h, rs.rank(&bv, v));
                     call!(h, rs.blocks());
@@ -925,11 +979,12 @@ pub fn step_strategy() -> BoxedStrategy<Step> {
         1 => (any::<u8>(), arg(), arg()).prop_map(|(w, a, b)| Step::Bits(w, a, b)),
         2 => any::<u8>().prop_map(Step::Reload),
         2 => (any::<bool>(), proptest::collection::vec((any::<u8>(), arg(), arg()), 0..6), any::<u8>()).prop_map(|(m, a, c)| Step::Map(m, a, c)),
+        2 => (any::<bool>(), any::<bool>()).prop_map(|(r, c)| Step::PlainFrom(r, c)),
     ]
     .boxed()
 }
 
-pub fn run_program(case: &Case) -> Result<(u64, u64, u64), Fail> {
+pub fn run_program(case: &Case) -> Result<(u64, u64, u64, u64), Fail> {
     let mut h = Heap::default();
     let key = hash_of(case);
     for (k, step) in case.steps.iter().enumerate() {
@@ -943,14 +998,14 @@ pub fn run_program(case: &Case) -> Result<(u64, u64, u64), Fail> {
             }
         }
     }
-    Ok((h.calls, h.panics, h.extreme_calls))
+    Ok((h.calls, h.panics, h.extreme_calls, h.multiset_to_plain))
 }
 
 impl Prop for C08 {
     type Case = Case;
     const ID: &'static str = "C08";
     const ISOLATE: bool = true;
-    const RULE: &'static str = "programs of 0..40 steps over a heap of objects (raw vector, integer vector, plain bitvector with any supports, sparse builder/vector incl. multisets, run-length builder/vector, wavelet matrix and core, stale support structures, a memory-mapped file of seven structures), every safe call with ARBITRARY arguments: offsets anywhere incl. the tail of the last word, indexes/ranks/values from {small, len+-3, count+-3, 2*len, 2^63+-2, MAX-3..MAX, any u64}, iterators driven by next/next_back/nth/nth_back/len/clone scripts and then a few calls more, builders with arbitrary call sequences, serialize->load of the library's own bytes, mapped views at structure starts and outside the file. A step may return anything or panic; the process must survive: std's unsafe-precondition checks (exact to the slice length) are compiled in, the worker runs under release arithmetic in configuration relub and with overflow checks in chk, and mapped views must lie inside the map. Non-trivial: a program with at least one out-of-range / extreme argument on a structure; distinct by program.";
+    const RULE: &'static str = "programs of 0..40 steps over a heap of objects (raw vector, integer vector, plain bitvector with any supports, sparse builder/vector incl. multisets, run-length builder/vector, wavelet matrix and core, stale and fresh support structures used through their public functions (RankSupport::rank, SelectSupport::<Identity|Complement>::select, Transformation::word/bit), plain vectors obtained by converting sparse (also multiset) and run-length vectors, a memory-mapped file of seven structures), every safe call with ARBITRARY arguments: offsets anywhere incl. the tail of the last word, indexes/ranks/values from {small, len+-3, count+-3, 2*len, 2^63+-2, MAX-3..MAX, any u64}, iterators driven by next/next_back/nth/nth_back/len/clone scripts and then a few calls more, builders with arbitrary call sequences, serialize->load of the library's own bytes, mapped views at structure starts and outside the file. A step may return anything or panic; the process must survive: std's unsafe-precondition checks (exact to the slice length) are compiled in, the worker runs under release arithmetic in configuration relub and with overflow checks in chk, and mapped views must lie inside the map. Non-trivial: a program with at least one out-of-range / extreme argument on a structure; distinct by program.";
 
     fn cases(tier: Tier) -> u32 {
         tier.pick(40_000, 500_000)
@@ -962,7 +1017,8 @@ impl Prop for C08 {
 
     fn run(case: &Case) -> CaseResult {
         let mut rep = Report::new();
-        let (calls, panics, extreme) = run_program(case)?;
+        let (calls, panics, extreme, multiset_to_plain) = run_program(case)?;
+        rep.class_if(multiset_to_plain > 0, "uses:multiset-converted-to-plain");
         rep.class_if(panics > 0, "program-with-caught-panics");
         rep.class_if(calls > 0, "program-with-calls");
         for s in &case.steps {
@@ -977,6 +1033,7 @@ impl Prop for C08 {
                 Step::StaleSupport(_) => rep.class("uses:stale-support"),
                 Step::RawBig(_, _, _, _, _) => rep.class("uses:long-superblock-regime"),
                 Step::Reload(_) => rep.class("uses:reload"),
+                Step::PlainFrom(_, _) => rep.class("uses:plain-from-conversion"),
                 Step::WmQuery(_, _, _) | Step::CoreQuery(_, _, _) => rep.class("uses:wavelet-matrix"),
                 _ => {}
             }
@@ -990,7 +1047,7 @@ impl Prop for C08 {
     }
 
     fn health(classes: &BTreeMap<String, u64>, _tier: Tier) -> Result<(), String> {
-        for c in ["program-with-caught-panics", "uses:memory-map", "uses:truncated-map", "uses:plain-iterators", "uses:sparse-iterators", "uses:rl-iterators", "uses:stale-support", "uses:long-superblock-regime", "uses:reload", "uses:wavelet-matrix"] {
+        for c in ["program-with-caught-panics", "uses:memory-map", "uses:truncated-map", "uses:plain-iterators", "uses:sparse-iterators", "uses:rl-iterators", "uses:stale-support", "uses:long-superblock-regime", "uses:reload", "uses:wavelet-matrix", "uses:plain-from-conversion", "uses:multiset-converted-to-plain"] {
             if classes.get(c).copied().unwrap_or(0) == 0 {
                 return Err(format!("no generated case reached class {}", c));
             }
